@@ -62,7 +62,7 @@ func runC19(c *Ctx) {
 		for _, i := range allInstrs(f) {
 			switch x := i.(type) {
 			case *ssa.Call:
-				if callee := staticCallee(x); callee != nil && callee.Name() == "decodeLowerCaseWithSplitChar" {
+				if callee := staticCallee(x); callee != nil && fnName(callee) == "decodeLowerCaseWithSplitChar" {
 					if r, ok := constInt(x.Call.Args[0]); ok {
 						return string(rune(r)), true
 					}
@@ -156,7 +156,7 @@ func runC19(c *Ctx) {
 			why := ""
 			if !ok {
 				// append(words, other...) : other must come from the extractor
-				if call, ok := ci.Call.Args[1].(*ssa.Call); ok && staticCallee(call) != nil && staticCallee(call).Name() == "extractInitialisms" {
+				if call, ok := ci.Call.Args[1].(*ssa.Call); ok && staticCallee(call) != nil && fnName(staticCallee(call)) == "extractInitialisms" {
 					why = "words from the initialism extractor (which lower-cases)"
 				} else {
 					okL = false
